@@ -1,5 +1,7 @@
 package core_domain
 
+import "strings"
+
 type AnnotationKeyValue struct {
 	Key   string
 	Value string
@@ -28,12 +30,18 @@ func (n *CodeAnnotation) IsComponentOrRepository() bool {
 	return n.Name == "Component" || n.Name == "Repository"
 }
 
+// simpleName is the annotation's name without its package: an annotation may be written
+// with its package (@org.junit.Test).
+func (n *CodeAnnotation) simpleName() string {
+	return n.Name[strings.LastIndex(n.Name, ".")+1:]
+}
+
 func (n *CodeAnnotation) IsTest() bool {
-	return n.Name == "Test"
+	return n.simpleName() == "Test"
 }
 
 func (n *CodeAnnotation) IsIgnoreTest() bool {
-	return n.Name == "Ignore"
+	return n.simpleName() == "Ignore"
 }
 
 func (n *CodeAnnotation) IsIgnoreOrTest() bool {
